@@ -79,6 +79,7 @@ class Spec:
             out.append(["add_triple", t])
         out.append(["addN", [["t0", "G1"], ["t1", "GB"]]])
         out.append(["addN", [["t1", "G1"], ["t1", "D"]]])
+        out.append(["addN", [["t0", "G1"], ["t1", "GB"], ["t0", "G1"], ["t0", "D"], ["t1", "G1"]]])  # one quad twice, graphs interleaved
         for pat in (["t0", "t1", "S", "ALL"] + (["O"] if len(self.tn) > 2 else [])):
             for n in [None, "D"] + NAMED + [UNKNOWN]:
                 out.append(["remove", pat, n])
